@@ -545,11 +545,16 @@ class _IntOps:
 
     def bit_length(self):
         a = bv(self)
-        a = z3.If(a < 0, -a, a)
-        r = z3.BitVecVal(0, W)
-        for i in range(W - 1):
-            r = z3.If(z3.Extract(i, i, a) == 1, z3.BitVecVal(i + 1, W), r)
-        return mk(r, (0, W))
+        i = iv(self)
+        top = W - 1
+        if i is not None:
+            top = min(top, max(abs(i[0]), abs(i[1])).bit_length())
+        if i is None or i[0] < 0:
+            a = z3.If(a < 0, -a, a)
+        r = bvval(0)
+        for k in range(top):
+            r = z3.If(z3.Extract(k, k, a) == 1, bvval(k + 1), r)
+        return mk(r, (0, top))
 
     def to_bytes(self, length=1, byteorder="big", *, signed=False):
         if isinstance(length, _IntOps):
@@ -845,3 +850,11 @@ def to_bytes_value(b):
     if r is None:
         raise TypeError("a bytes-like object is required, not %r" % type(b).__name__)
     return r
+
+
+def wire(b):
+    """what is handed to the code under test: in a native run the spec models' output (SymBytes
+    with concrete items) becomes a real bytes object"""
+    if CTX is None and isinstance(b, SymBytes):
+        return b.concrete()
+    return b
